@@ -612,7 +612,11 @@ class Node:
         Returns:
             the new :class:`~nutree.node.Node` instance
         """
-        if isinstance(child, self._tree.__class__):
+        from nutree.tree import Tree  # noqa: PLC0415 (circular at import time)
+
+        # Any tree is added node by node - also if the target tree's class is a
+        # subclass of `child`'s class (e.g. one that overrides `calc_data_id`)
+        if isinstance(child, Tree):
             if deep is None:
                 deep = True
             topnodes = child._root.children.copy()
